@@ -271,5 +271,160 @@ pub open spec fn filter_allowed(f: Seq<char>, st: NegotiatedSettings, no_local: 
 //@@finding F-SUBID-AVAIL
         proof { assume(packet.subscription_identifier is Some ==> context.negotiated_settings->Some_0.subscription_identifiers_available); }
 //@end
+
+// ---- UNSUBSCRIBE (MQTT5 3.10): packet id, property length, user properties, then the topic filters as length-prefixed strings
+pub open spec fn unsubscribe_props_len(p: UnsubscribePacket) -> nat { opt_user_props_len(p.user_properties) }
+pub open spec fn unsubscribe_remaining_len(p: UnsubscribePacket) -> nat {
+    2 + vli_len(unsubscribe_props_len(p)) + unsubscribe_props_len(p) + filters_len(p.topic_filters@, p.topic_filters@.len())
+}
+
+//@fn gneiss-mqtt/src/mqtt/unsubscribe.rs compute_unsubscribe_packet_length_properties5 props=C02,C16
+    requires ups_ok(packet.user_properties), filters_ok(packet.topic_filters@), count_ok(packet.topic_filters@.len()),
+        packet.user_properties matches Some(ps) ==> count_ok(ps@.len()),
+    ensures
+        r matches Ok((rem, props)) ==> props == unsubscribe_props_len(*packet) && rem == unsubscribe_remaining_len(*packet) && rem <= 268435455 && props <= 268435455,
+        (unsubscribe_remaining_len(*packet) <= 268435455) ==> r is Ok,
+//@@loop 0 iter=it
+        invariant
+            filters_ok(packet.topic_filters@), count_ok(packet.topic_filters@.len()),
+            unsubscribe_property_section_length <= 268435455,
+            total_remaining_length == 2 + vli_len(unsubscribe_property_section_length as nat) + unsubscribe_property_section_length + packet.topic_filters@.len() * 2
+                + filters_len(packet.topic_filters@, it.index@ as nat) - it.index@ * 2,
+            total_remaining_length <= 300000000 + 16777216 * 2 + it.index@ * 65535,
+//@@at before "total_remaining_length += filter.len();"
+            proof { assert(0 <= it.index@ < packet.topic_filters@.len()); assert(*filter == packet.topic_filters@[it.index@ as int]); }
+//@@at before "let mut total_remaining_length : usize = 2 + compute_variable_length_integer_encode_size(unsubscribe_property_section_length)?;"
+        proof {
+            if packet.user_properties is Some { lemma_user_props_len_bound(packet.user_properties->Some_0@, packet.user_properties->Some_0@.len()); }
+        }
+//@end
+
+// the static rules of C16 for an UNSUBSCRIBE as submitted: no packet id yet, a non-empty filter list, user properties within limits
+pub open spec fn unsubscribe_static_ok(p: UnsubscribePacket) -> bool {
+    p.packet_id == 0 && p.topic_filters@.len() > 0 && ups_ok(p.user_properties)
+}
+
+//@fn gneiss-mqtt/src/mqtt/unsubscribe.rs validate_unsubscribe_packet_outbound props=C16
+    ensures r is Ok <==> unsubscribe_static_ok(*packet),
+//@end
+
+//@fn gneiss-mqtt/src/mqtt/unsubscribe.rs validate_unsubscribe_packet_outbound_internal props=C16
+    requires context.negotiated_settings is Some,
+        ups_ok(packet.user_properties), filters_ok(packet.topic_filters@), count_ok(packet.topic_filters@.len()),
+        packet.user_properties matches Some(ps) ==> count_ok(ps@.len()),
+    ensures
+        ({
+            let st = *context.negotiated_settings->Some_0;
+            let rem = unsubscribe_remaining_len(*packet);
+            r is Ok <==> (rem <= 268435455 && 1 + rem + vli_len(rem) <= st.maximum_packet_size_to_server
+                && packet.packet_id != 0
+                && (forall|i: int| 0 <= i < packet.topic_filters@.len() ==> filter_allowed((#[trigger] packet.topic_filters@[i])@, st, None)))
+        }),
+//@@loop 0 iter=it
+        invariant
+            context.negotiated_settings is Some,
+            forall|i: int| 0 <= i < it.index@ ==> filter_allowed((#[trigger] packet.topic_filters@[i])@, *context.negotiated_settings->Some_0, None),
+//@@at before "if !is_valid_topic_filter_internal(filter, context, None) {"
+            proof { assert(0 <= it.index@ < packet.topic_filters@.len()); assert(*filter == packet.topic_filters@[it.index@ as int]); }
+//@end
+
+// =====================================================================================================
+// DISCONNECT (MQTT5 3.14): reason code and property section may be omitted (3.14.2.1 / 3.14.2.2.1)
+// =====================================================================================================
+pub open spec fn opt_str_prop_len(o: Option<String>) -> nat { match o { Some(s) => 3 + blen(s@), None => 0 } }
+pub open spec fn disconnect_props_len(p: DisconnectPacket) -> nat {
+    opt_user_props_len(p.user_properties) + (if p.session_expiry_interval_seconds is Some { 5nat } else { 0nat }) + opt_str_prop_len(p.reason_string) + opt_str_prop_len(p.server_reference)
+}
+pub open spec fn disconnect_remaining_len(p: DisconnectPacket) -> nat {
+    if disconnect_props_len(p) == 0 { if p.reason_code == DisconnectReasonCode::NormalDisconnection { 0 } else { 1 } }
+    else { 1 + vli_len(disconnect_props_len(p)) + disconnect_props_len(p) }
+}
+
+//@fn gneiss-mqtt/src/mqtt/disconnect.rs compute_disconnect_packet_length_properties props=C02,C16
+    requires ups_ok(packet.user_properties), opt_str_ok(packet.reason_string), opt_str_ok(packet.server_reference),
+        packet.user_properties matches Some(ps) ==> count_ok(ps@.len()),
+    ensures
+        r matches Ok((rem, props)) ==> props == disconnect_props_len(*packet) && rem == disconnect_remaining_len(*packet) && props <= 268435455,
+        disconnect_props_len(*packet) <= 268435455 ==> r is Ok,
+//@@at before "if disconnect_property_section_length == 0 {"
+        proof {
+            if packet.user_properties is Some { lemma_user_props_len_bound(packet.user_properties->Some_0@, packet.user_properties->Some_0@.len()); }
+        }
+//@end
+
+pub open spec fn disconnect_static_ok(p: DisconnectPacket) -> bool {
+    opt_str_ok(p.reason_string) && ups_ok(p.user_properties) && opt_str_ok(p.server_reference)
+}
+
+//@fn gneiss-mqtt/src/mqtt/disconnect.rs validate_disconnect_packet_outbound props=C16
+    ensures r is Ok <==> disconnect_static_ok(*packet),
+//@end
+
+//@fn gneiss-mqtt/src/mqtt/disconnect.rs validate_disconnect_packet_outbound_internal props=C16
+    requires context.negotiated_settings is Some, disconnect_static_ok(*packet),
+        packet.user_properties matches Some(ps) ==> count_ok(ps@.len()),
+    ensures
+        ({
+            let st = *context.negotiated_settings->Some_0;
+            let rem = disconnect_remaining_len(*packet);
+            // [MQTT-3.14.2-2]: a zero Session Expiry Interval in CONNECT (absent = 0) forbids a non-zero one in DISCONNECT
+            let connect_sei: u32 = match context.connect_options { Some(c) => (match c.session_expiry_interval_seconds { Some(v) => v, None => 0 }), None => 0 };
+            r is Ok <==> (disconnect_props_len(*packet) <= 268435455 && rem <= 268435455 && 1 + rem + vli_len(rem) <= st.maximum_packet_size_to_server
+                && !(connect_sei == 0 && (packet.session_expiry_interval_seconds matches Some(v) && v > 0)))
+        }),
+//@end
+
+// =====================================================================================================
+// the dispatcher applied at the public submit entry points (C16 "at submission for static rules")
+// =====================================================================================================
+// validators of packets the application never submits (AUTH, CONNECT, the client's own acknowledgements): assumed signatures
+// (the ack validators are macro-generated), no contract - the dispatcher's contract says nothing about those kinds
+#[verifier::external_body] pub fn validate_auth_packet_outbound(packet: &AuthPacket) -> GneissResult<()> { unimplemented!() }
+#[verifier::external_body] pub fn validate_connect_packet_outbound(packet: &ConnectPacket) -> GneissResult<()> { unimplemented!() }
+#[verifier::external_body] pub fn validate_puback_packet_outbound(packet: &PubackPacket) -> GneissResult<()> { unimplemented!() }
+#[verifier::external_body] pub fn validate_pubrec_packet_outbound(packet: &PubrecPacket) -> GneissResult<()> { unimplemented!() }
+#[verifier::external_body] pub fn validate_pubrel_packet_outbound(packet: &PubrelPacket) -> GneissResult<()> { unimplemented!() }
+#[verifier::external_body] pub fn validate_pubcomp_packet_outbound(packet: &PubcompPacket) -> GneissResult<()> { unimplemented!() }
+
+//@fn gneiss-mqtt/src/validate.rs validate_packet_outbound props=C16
+    ensures
+        // every kind of operation the application can submit is routed to ITS static rules
+        packet matches MqttPacket::Publish(p) ==> (r is Ok <==> publish_static_ok(*p)),
+        packet matches MqttPacket::Subscribe(p) ==> (r is Ok <==> subscribe_static_ok(*p)),
+        packet matches MqttPacket::Unsubscribe(p) ==> (r is Ok <==> unsubscribe_static_ok(*p)),
+        packet matches MqttPacket::Disconnect(p) ==> (r is Ok <==> disconnect_static_ok(*p)),
+        // packets only a server sends are refused
+        (packet is Connack || packet is Suback || packet is Unsuback || packet is Pingresp) ==> r is Err,
+//@end
+
+#[verifier::external_body] pub fn validate_auth_packet_outbound_internal(packet: &AuthPacket, context: &OutboundValidationContext) -> GneissResult<()> { unimplemented!() }
+#[verifier::external_body] pub fn validate_puback_packet_outbound_internal(packet: &PubackPacket, context: &OutboundValidationContext) -> GneissResult<()> { unimplemented!() }
+#[verifier::external_body] pub fn validate_pubrec_packet_outbound_internal(packet: &PubrecPacket, context: &OutboundValidationContext) -> GneissResult<()> { unimplemented!() }
+#[verifier::external_body] pub fn validate_pubrel_packet_outbound_internal(packet: &PubrelPacket, context: &OutboundValidationContext) -> GneissResult<()> { unimplemented!() }
+#[verifier::external_body] pub fn validate_pubcomp_packet_outbound_internal(packet: &PubcompPacket, context: &OutboundValidationContext) -> GneissResult<()> { unimplemented!() }
+
+// the last-chance check when an operation is dequeued (C16 "at send time for connection-dependent limits"): each kind is routed to ITS
+// connection-dependent rules; the preconditions are what the submit-time validation has already established
+//@fn gneiss-mqtt/src/validate.rs validate_packet_outbound_internal props=C16
+    requires context.negotiated_settings is Some,
+        packet matches MqttPacket::Publish(p) ==> publish_static_ok(*p) && (p.user_properties matches Some(ps) ==> count_ok(ps@.len())) && p.subscription_identifiers is None
+            && (p.payload matches Some(b) ==> b@.len() <= 9223372036854775807),
+        packet matches MqttPacket::Subscribe(p) ==> ups_ok(p.user_properties) && subs_ok(p.subscriptions@) && count_ok(p.subscriptions@.len()) && (p.user_properties matches Some(ps) ==> count_ok(ps@.len())),
+        packet matches MqttPacket::Unsubscribe(p) ==> ups_ok(p.user_properties) && filters_ok(p.topic_filters@) && count_ok(p.topic_filters@.len()) && (p.user_properties matches Some(ps) ==> count_ok(ps@.len())),
+        packet matches MqttPacket::Disconnect(p) ==> disconnect_static_ok(*p) && (p.user_properties matches Some(ps) ==> count_ok(ps@.len())),
+    ensures
+        packet is Connect || packet is Pingreq ==> r is Ok,
+        (packet is Connack || packet is Suback || packet is Unsuback || packet is Pingresp) ==> r is Err,
+        packet matches MqttPacket::Unsubscribe(p) ==> ({
+            let st = *context.negotiated_settings->Some_0; let rem = unsubscribe_remaining_len(*p);
+            r is Ok <==> (rem <= 268435455 && 1 + rem + vli_len(rem) <= st.maximum_packet_size_to_server && p.packet_id != 0
+                && (forall|i: int| 0 <= i < p.topic_filters@.len() ==> filter_allowed((#[trigger] p.topic_filters@[i])@, st, None))) }),
+        packet matches MqttPacket::Publish(p) ==> ({
+            let st = *context.negotiated_settings->Some_0;
+            let res = match context.outbound_alias_resolution { Some(x) => x, None => OutboundAliasResolution { skip_topic: false, alias: None } };
+            let rem = publish_remaining_len(*p, res);
+            r is Ok <==> (rem <= 268435455 && 1 + rem + vli_len(rem) <= st.maximum_packet_size_to_server
+                && qos_le(p.qos, st.maximum_qos) && (p.retain ==> st.retain_available) && (p.qos != QualityOfService::AtMostOnce ==> p.packet_id != 0)) }),
+//@end
 } // verus!
 fn main() {}
